@@ -826,6 +826,10 @@ class _Analysis:
         if bl and isinstance(v, ast.Call) and isinstance(v.func, ast.Attribute) and v.args and isinstance(v.args[0], ast.Constant) and v.args[0].value == '@' and isinstance(node.slice, (ast.Constant, ast.UnaryOp)):
             idx = node.slice.value if isinstance(node.slice, ast.Constant) else (-node.slice.operand.value if isinstance(node.slice.op, ast.USub) and isinstance(node.slice.operand, ast.Constant) else None)
             if (v.func.attr in ('rsplit', 'split') and idx == -1) or (v.func.attr == 'rpartition' and idx in (2, -1)):
+                # ... unless what is split is urlparse's idea of the authority: it ends at the first '/', '?' or '#', and a password may contain those -
+                # then `netloc` is 'user:pass-up-to-the-slash', has no '@' at all, and comes through this idiom unchanged
+                if any(isinstance(x, ast.Attribute) and x.attr == 'netloc' for x in ast.walk(v.func.value)):
+                    return bl
                 return EMPTY
         if bl and isinstance(node.slice, ast.Constant) and isinstance(node.slice.value, str) and node.slice.value in self.eng.clean_fields():
             return EMPTY
